@@ -115,6 +115,9 @@ type zoo struct {
 	SrvGood, SrvOtherCA, SrvSelf, SrvExpired, SrvFuture, SrvWrongSAN, SrvNoSAN, SrvNameOnly certPair
 	// for a collector that is reached by host name ("localhost" -> 127.0.0.1)
 	SrvLoopIPOnly, SrvLoopNameOnly, SrvLoopBoth certPair
+	// a home-made certificate for every name and address an exporter may expect and no certificate
+	// of the zoo lists: somebody's attempt to talk a verifier into looking at the wrong certificate
+	Decoy certPair
 	// client certificates
 	CliGood, CliOtherCA, CliExpired certPair
 }
@@ -139,6 +142,7 @@ func getZoo() *zoo {
 		z.SrvExpired = z.CA.leaf(leafOpts{cn: "srv", dns: []string{serverDNSName}, ips: ips, notBefore: long0, notAfter: bubbleEpoch.AddDate(0, 0, 20)})
 		z.SrvFuture = z.CA.leaf(leafOpts{cn: "srv", dns: []string{serverDNSName}, ips: ips, notBefore: bubbleEpoch.AddDate(0, 0, 10), notAfter: long1})
 		z.SrvWrongSAN = z.CA.leaf(leafOpts{cn: "srv", dns: []string{"other.example"}, ips: []net.IP{net.ParseIP("10.9.9.9")}, notBefore: long0, notAfter: long1})
+		z.Decoy = z.CA.leaf(leafOpts{cn: "srv", dns: []string{"wrong.example"}, ips: []net.IP{net.ParseIP("10.10.10.10"), net.ParseIP("fd00::99")}, notBefore: long0, notAfter: long1, selfSign: true})
 		loop := []net.IP{net.ParseIP("127.0.0.1")}
 		z.SrvLoopIPOnly = z.CA.leaf(leafOpts{cn: "srv", ips: loop, notBefore: long0, notAfter: long1})
 		z.SrvLoopNameOnly = z.CA.leaf(leafOpts{cn: "srv", dns: []string{"localhost"}, notBefore: long0, notAfter: long1})
